@@ -341,12 +341,25 @@ Free(h) ==
 
 --------------------------------------------------------------------------
 (* write mappings (C02) *)
-GrantAllowed(h, a, grant) ==
+\* no other window (of this or of another handle) covers octet p of area a
+NoOtherCover(H, h, k, a, p) ==
+  \A q \in Refs(H) : (q # <<h, k>> /\ H[q[1]][q[2]].a = a) =>
+       ~(H[q[1]][q[2]].off <= p /\ p < H[q[1]][q[2]].off + H[q[1]][q[2]].len)
+\* Strict: what ubuf_block_mem does.  Otherwise the weakest rule that keeps
+\* the statement: a grant needs that no other handle has a window on the
+\* area and that no other window at all covers the octet (TLC shows that
+\* "no other handle" alone is not enough: dup, append the dup to its source,
+\* write through one window changes two octets of the byte string); a
+\* refusal needs that the area has more than one window.
+GrantAllowed(h, k, a, p, grant) ==
   IF Bug = "nosingle" THEN grant
   ELSE IF Strict THEN grant = (Owners(hs, a) = 1)
-  ELSE IF grant THEN SoleHandle(hs, h, a) ELSE Owners(hs, a) > 1
+  ELSE IF grant THEN SoleHandle(hs, h, a) /\ NoOtherCover(hs, h, k, a, p) ELSE Owners(hs, a) > 1
 
-\* op = "wmap" (map and unmap) or "poke" (map, store v, unmap)
+\* op = "wmap" (map and unmap) or "poke" (map, store v, unmap).
+\* An offset outside the block has no byte-string meaning (class Unspecified):
+\* the call is refused (err / busy) and nothing changes, or it reports success
+\* and the handle is read back and freed by the caller.
 Write(op, h, off, v, grant) ==
   /\ h \in Live
   /\ LET n == Size(h)  o == Norm(off, n)
@@ -354,14 +367,16 @@ Write(op, h, off, v, grant) ==
      IF o >= 0 /\ o < n
      THEN LET l == Loc(hs[h], o)
               w == hs[h][l[1]] IN
-          /\ GrantAllowed(h, w.a, grant)
+          /\ GrantAllowed(h, l[1], w.a, w.off + l[2], grant)
           /\ IF ~grant THEN Refuse(op, args, "busy")
              ELSE IF op = "wmap" THEN Refuse(op, args, "ok")
              ELSE Mut(op, args, "ok", -1, {h}, hs,
                       [areas EXCEPT ![w.a][w.off + l[2] + 1] = v],
                       [str EXCEPT ![h][o + 1] = v], fresh)
      ELSE /\ ~grant
-          /\ Refuse(op, args, "err")
+          /\ \/ Unspec(op, args, {h})
+             \/ Commit(Rec(op, args, <<>>, <<>>, "busy", -1, <<>>, TRUE, TRUE, TRUE), {},
+                       hs, areas, str, fresh)
 
 --------------------------------------------------------------------------
 (* observers *)
@@ -455,16 +470,18 @@ Isolation ==
   [][\A g \in DOMAIN hs \cap DOMAIN hs' :
         g \notin mayChange' => Cat(areas', hs'[g]) = Cat(areas, hs[g])]_vars
 
-\* C02: a granted write mapping implies a single owner
-GrantedArea ==
-  LET h == last.args[1]
-      o == Norm(last.args[2], Size(h))
-      l == Loc(hs[h], o)
-  IN hs[h][l[1]].a
+\* C02: a granted write mapping implies a single owner (of the area under
+\* the mapped octet, judged in the state in which the mapping was asked).
+\* An action property: it does not depend on the VIEW of the exhaustive runs.
+MultiHandle(H, a) == \E p, q \in Refs(H) : /\ H[p[1]][p[2]].a = a /\ H[q[1]][q[2]].a = a
+                                           /\ p[1] # q[1]
+SharedArea(H, a) == IF Strict THEN Owners(H, a) > 1 ELSE MultiHandle(H, a)
 WriteOnlySingle ==
-  (last.op \in {"wmap", "poke"} /\ last.res = "ok") =>
-     /\ SoleHandle(hs, last.args[1], GrantedArea)
-     /\ Strict => Owners(hs, GrantedArea) = 1
+  [][(last'.op \in {"wmap", "poke"} /\ last'.res = "ok" /\ ~last'.u) =>
+        LET h == last'.args[1]
+            o == Norm(last'.args[2], Size(h))
+            l == Loc(hs[h], o)
+        IN ~SharedArea(hs, hs[h][l[1]].a)]_vars
 
 \* C02: cutting / inserting / resizing / re-segmenting never writes memory
 \* (in particular never an area with more than one owner)
@@ -475,7 +492,7 @@ StructuralOpsDontWrite ==
         \A a \in DOMAIN areas \cap DOMAIN areas' : areas'[a] = areas[a]]_vars
 SharedNeverWritten ==
   [][\A a \in DOMAIN areas \cap DOMAIN areas' :
-        Owners(hs, a) > 1 => areas'[a] = areas[a]]_vars
+        SharedArea(hs, a) => areas'[a] = areas[a]]_vars
 
 \* C03: a call that reports an error leaves every size and content unchanged
 ErrLeavesUnchanged ==
